@@ -260,8 +260,8 @@ static void sweep_case(int kind, unsigned long long iseed, size_t n, int entry, 
 
     gen_input(g_input, n, kind, iseed);
     if (entry == E_SEQ) prepare_seqs(p, g_input, n);
-    snprintf(g_desc, sizeof g_desc, "one %d %llu %zu %d %d %d %d %d %d %d %d %d %d %d CAP %d", kind, iseed, n, entry,
-             p->level, p->chk, p->csf, p->wlog, p->maxbs, p->tcbs, p->split, p->strat, p->mm, p->ldm, placement0);
+    snprintf(g_desc, sizeof g_desc, "one %d %llu %zu %d %d %d %d %d %d %d %d %d %d %d CAP %zu %d", kind, iseed, n, entry,
+             p->level, p->chk, p->csf, p->wlog, p->maxbs, p->tcbs, p->split, p->strat, p->mm, p->ldm, bound + 64, placement0);
 
     g_shared[0] = (size_t)-1;
     /* ample run */
